@@ -22,6 +22,6 @@ PROP = Property(
     assumptions=["coq/Core/Search.v is a hand-written model of ares_search.c / the ares_getaddrinfo.c walk; the tie to the C code is the correspondence run (internal ares_search_name_list on a real channel; ares_search_dnsrec and ares_getaddrinfo end to end on virtual sockets with a scripted server)",
                  "allocation failures are not modelled; a candidate whose send fails inside ares_send_nolock (over-long name, property C01) is outside the modelled stop rule",
                  "the stop rule is modelled for the code WITH fixes/C12-search-nodata-final.patch (applied to the repository as 39c371c)",
-                 "engine chan12 (channel simulator): ares_search_dnsrec, ares_getaddrinfo (AF_INET, AF_INET6, AF_UNSPEC) and ares_gethostbyname end to end; for AF_UNSPEC the status of a candidate is defined as: data if either family returned addresses, else the status of the query that completed last (ai2_combine) - this is what host_callback does, a no-data answer of the family that completed first is not remembered when the second one says not-found"],
+                 "engine chan12 (channel simulator): ares_search_dnsrec, ares_getaddrinfo (AF_INET, AF_INET6, AF_UNSPEC) and ares_gethostbyname end to end; for AF_UNSPEC the status of a candidate is: data if either family returned addresses, else the status of the query that completed last, with a no-data answer of the first one remembered (ai2_combine; code WITH fixes/C12-gai-unspec-nodata.patch); every AF_UNSPEC request is run twice with the answers in opposite arrival order (FAIL unspec-order, open finding)"],
     rule="L: generated (name, ndots, domains, flags, HOSTALIASES) tuples; S/A: scripted per-candidate outcomes, all vectors up to length 5 (quick) / 6 (thorough) plus random longer ones; non-trivial = the request reached the name-list code (no bad-name / no-init cases); distinct by case text",
 )
